@@ -346,6 +346,7 @@ namespace Givaro {
         for(bool exemp = true; exemp; this->nextprimein(prime) ) {
             A = prime;
             primeorder = phin;
+            newLf.resize(0); oldLf.resize(0);
             for(typename Array::const_iterator f = Lf.begin(); f != Lf.end(); ++f) {
                 this->powmod(tmp, prime, this->div(expo, primeorder, *f), n);
                 if (isOne(tmp)) {
